@@ -31,7 +31,7 @@ struct VerdictMonitor : Monitor {
   std::string fname;
   long judged = 0, judged_safe = 0, reached_false = 0;
   VerdictMonitor(const CheckResult &r, const Case &c, Outcome &o) : cr(r), cs(c), out(o) {}
-  bool on_assert(Machine &, Frame &f, const std::string &label, stmt_t &s, int64_t id,
+  bool on_assert(Machine &m, Frame &f, const std::string &label, stmt_t &s, int64_t id,
                  bool holds) override {
     auto it = cr.by_id.find(id);
     if (it == cr.by_id.end())
@@ -56,7 +56,7 @@ struct VerdictMonitor : Monitor {
       out.v.property = cs.property;
       out.v.monitor = "unreachable_verdict";
       out.v.item = cs.pstr("analyzer", "fwd");
-      out.v.where = f.fn->src->name + ":" + label;
+      out.v.where = f.fn->src->name + ":" + label + (m.stack_has_recursion() ? " rec=1" : " rec=0");
       out.v.detail = "assertion id=" + std::to_string(id) + " [" + os.str() +
                      "] classified unreachable but an execution reaches it";
       return false;
@@ -68,7 +68,7 @@ struct VerdictMonitor : Monitor {
         out.v.property = cs.property;
         out.v.monitor = "safe_verdict";
         out.v.item = cs.pstr("analyzer", "fwd");
-        out.v.where = f.fn->src->name + ":" + label;
+        out.v.where = f.fn->src->name + ":" + label + (m.stack_has_recursion() ? " rec=1" : " rec=0");
         out.v.detail = "assertion id=" + std::to_string(id) + " [" + os.str() +
                        "] classified safe but an execution reaches it with a false condition";
         return false;
